@@ -135,13 +135,24 @@ def build_econftool(rundir):
     return out
 
 
+def all_fuzzers(p):
+    """explicit libFuzzer targets of a property plus the generic structure-aware one (the property's own decoder
+    driven by libFuzzer: bytes = choices)"""
+    fzs = list(p.get("fuzzers", []))
+    if p.get("struct_fuzz"):
+        fzs.append({"name": "fuzz_" + p["binary"], "define": ("VF_LIBFUZZER", "main=vf_harness_main"),
+                    "engine_define": ("VF_LIBFUZZER",), "max_len": 4096, "dict": None, "corpus": None, "generic": True})
+    return fzs
+
+
 def build_fuzzer(p, fz, rundir):
     t0 = time.time()
     libobjs = build_lib("fuzz", os.path.join(rundir, "lib-fuzz"))
     srcs = harness_sources(p)
     objs = []
+    defs = fz["define"] if isinstance(fz["define"], (tuple, list)) else (fz["define"],)
     for sfile in srcs:
-        objs.append(harness_object(sfile, "fuzz", () if "engine.cpp" in sfile else (fz["define"],)))
+        objs.append(harness_object(sfile, "fuzz", tuple(fz.get("engine_define", ())) if "engine.cpp" in sfile else tuple(defs)))
     out = os.path.join(rundir, fz["name"])
     link(objs + libobjs, out, "fuzz", ["-lrapidcheck", "-lpthread"])
     log("[build] %s (libFuzzer) in %.1fs" % (fz["name"], time.time() - t0))
@@ -181,9 +192,10 @@ def setup_all():
                 todo.append((s, v))
         for s, v in p.get("extra_objects", []):
             todo.append((os.path.join(SRC, s), v))
-        for fz in p.get("fuzzers", []):
+        for fz in all_fuzzers(p):
+            defs = fz["define"] if isinstance(fz["define"], (tuple, list)) else (fz["define"],)
             for s in harness_sources(p):
-                todo.append((s, "fuzz") if "engine.cpp" in s else (s, "fuzz", (fz["define"],)))
+                todo.append((s, "fuzz", tuple(fz.get("engine_define", ()))) if "engine.cpp" in s else (s, "fuzz", tuple(defs)))
         if p.get("valgrind_sample"):
             for s in harness_sources(p):
                 todo.append((s, "plain"))
@@ -501,7 +513,7 @@ def run_check(pid, tier, seed):
             od = os.path.join(sdir, "mode%02d" % j)
             shards.append(Shard(100 + j, [mode_binary, "--out", od, "--known", KNOWN] + extra_args + ["--mode"] + m, e, od))
         fuzz_shards = []
-        for fz in p.get("fuzzers", []):
+        for fz in (all_fuzzers(p) if cfg.get("fuzz_runs") else []):
             fbin = build_fuzzer(p, fz, rundir)
             for j in range(cfg.get("fuzz_jobs", 8)):
                 od = os.path.join(sdir, "%s-%02d" % (fz["name"], j))
@@ -514,12 +526,13 @@ def run_check(pid, tier, seed):
                 for f in glob.glob(os.path.join(VERIF, "replays", pid, "*." + fz["name"])):
                     if not os.path.basename(f).startswith("found-"):
                         shutil.copy(f, cdir)
-                e = dict(env, VF_STATS_DIR=od)
-                e["ASAN_OPTIONS"] = "detect_leaks=1:quarantine_size_mb=16:allocator_may_return_null=1:handle_abort=1"
+                e = dict(env, VF_STATS_DIR=od, VF_KNOWN=KNOWN)
+                leaks = "0" if fz.get("generic") else "1"   # leaks are C04's and C20's subject
+                e["ASAN_OPTIONS"] = "detect_leaks=%s:quarantine_size_mb=16:allocator_may_return_null=1:handle_abort=1" % leaks
                 e["UBSAN_OPTIONS"] = "halt_on_error=1:print_stacktrace=1"
                 cmd = [fbin, cdir, "-seed=%d" % (seed * 100 + j + 1), "-runs=%d" % cfg["fuzz_runs"], "-max_len=%d" % fz["max_len"],
                        "-artifact_prefix=" + od + "/", "-print_final_stats=1", "-timeout=25", "-rss_limit_mb=4000",
-                       "-detect_leaks=1", "-use_value_profile=1"]
+                       "-detect_leaks=" + leaks, "-use_value_profile=1"]
                 if fz.get("dict"):
                     cmd.append("-dict=" + os.path.join(VERIF, fz["dict"]))
                 sh = Shard(400 + len(fuzz_shards), cmd, e, od)
@@ -609,7 +622,7 @@ def run_check(pid, tier, seed):
             for a in soft:
                 cands.append((a, 250))  # only a violation if it reproduces at 10x the limit
             for art, tmo in cands:
-                sig = [l for l in fs.log_tail(400).splitlines() if l.startswith("SUMMARY:") or l.startswith("C04 ORACLE FAILURE")]
+                sig = [l for l in fs.log_tail(400).splitlines() if l.startswith("SUMMARY:") or "ORACLE FAILURE" in l]
                 sig = (sig[-1] if sig else os.path.basename(art).split("-")[0])
                 fails = 0
                 out = ""
@@ -686,10 +699,11 @@ def run_check(pid, tier, seed):
                 os.makedirs(dd, exist_ok=True)
                 with open(os.path.join(dd, "%s-%s.log" % (pid, os.path.basename(dst))), "w") as f:
                     f.write("shard %d rc=%s cmd=%s\n%s\n" % (s.idx, s.rc, " ".join(s.cmd), s.log_tail(200)))
-        dirs = [s.outdir for s in shards if not getattr(s, "twin_of", None) and s.idx != 300 and not getattr(s, "fuzzer", None)]
+        dirs = [s.outdir for s in shards if not getattr(s, "twin_of", None) and s.idx != 300 and
+                (not getattr(s, "fuzzer", None) or s.fuzzer.get("generic"))]
         tot = merge_stats(dirs)
         if fuzz_shards:
-            tot["evaluations"] += fuzz_tot["execs"]
+            tot["evaluations"] += sum(parse_fuzz_log(fs.logpath)[0] for fs in fuzz_shards if not fs.fuzzer.get("generic"))
             tot["notes"]["libfuzzer"] = ["%d processes, %d executions in total, best cov=%d ft=%d; inputs parsed with entries=%d, rejected with a parse error=%d" % (
                 len(fuzz_shards), fuzz_tot["execs"], fuzz_tot["cov"], fuzz_tot["ft"], fuzz_tot["parsed_with_entries"], fuzz_tot["rejected_with_parse_error"])]
         if fill:
@@ -697,7 +711,9 @@ def run_check(pid, tier, seed):
         if vg:
             vs = read_stats(os.path.join(sdir, "valgrind"))
             tot["notes"]["valgrind_sample"] = ["%d cases under valgrind memcheck (plain -O0 build)" % (vs or {}).get("cases", 0)]
-        weak = check_floors(p, tot) if not violations else []
+        # class floors are a statement about the rapidcheck generator; the coverage-guided fuzzer has its own distribution
+        rc_dirs = [s.outdir for s in shards if not getattr(s, "twin_of", None) and s.idx != 300 and not getattr(s, "fuzzer", None)]
+        weak = check_floors(p, merge_stats(rc_dirs) if fuzz_shards else tot) if not violations else []
         if weak:
             log("[warn] %s: generator below class floors: %s" % (pid, ", ".join(weak)))
         extra_cov = {"replayed_regression_cases": n_regress}
@@ -730,7 +746,7 @@ def run_replay(pid, case):
         if "custom" in p:
             import custom
             return getattr(custom, p["custom"] + "_replay")(sys.modules[__name__], pid, p, case, rundir, env)
-        for fz in p.get("fuzzers", []):
+        for fz in all_fuzzers(p):
             if case.endswith("." + fz["name"]):
                 fbin = build_fuzzer(p, fz, rundir)
                 e = dict(env, ASAN_OPTIONS="detect_leaks=1:quarantine_size_mb=16:allocator_may_return_null=1")
